@@ -276,9 +276,10 @@ const (
 	WReflect = "reflect" // Writer.Write(any), one row at a time
 	WAny     = "any"     // GenericWriter[any] with an explicit schema
 	WRows    = "rows"    // GenericWriter[T].WriteRows(pre-shredded rows)
+	WFilter  = "filter"  // FilterRowWriter(GenericWriter[T], always true).WriteRows(the caller's own rows)
 )
 
-var WriterKinds = []string{WGeneric, WReflect, WAny, WRows}
+var WriterKinds = []string{WGeneric, WReflect, WAny, WRows, WFilter}
 
 // Buffer kinds.
 const (
@@ -342,12 +343,17 @@ func (s *shape[T]) EqualValues(a, b any) bool { return normEqual(a, b) }
 // ---- writers ----
 
 type genericWriter[T any] struct {
-	w    *parquet.GenericWriter[T]
-	rows bool
+	w      *parquet.GenericWriter[T]
+	rows   bool
+	filter parquet.RowWriter
 }
 
 func (g *genericWriter[T]) Write(d Data, lo, hi int) (int, error) {
 	dd := d.(*data[T])
+	if g.filter != nil {
+		// the caller's own rows, not copies: they must come back untouched
+		return g.filter.WriteRows(dd.rows[lo:hi])
+	}
 	if g.rows {
 		return g.w.WriteRows(cloneRows(dd.rows[lo:hi]))
 	}
@@ -449,6 +455,9 @@ func (s *shape[T]) NewWriter(kind string, out io.Writer, opts ...parquet.WriterO
 		return &genericWriter[T]{w: parquet.NewGenericWriter[T](out, opts...)}
 	case WRows:
 		return &genericWriter[T]{w: parquet.NewGenericWriter[T](out, opts...), rows: true}
+	case WFilter:
+		w := parquet.NewGenericWriter[T](out, opts...)
+		return &genericWriter[T]{w: w, filter: parquet.FilterRowWriter(w, func(parquet.Row) bool { return true })}
 	case WAny:
 		o := append([]parquet.WriterOption{s.schema}, opts...)
 		return &anyWriter[T]{w: parquet.NewGenericWriter[any](out, o...)}
